@@ -240,7 +240,16 @@ func (o *oracles) checkC13(rep reporter, r *reply) {
 			}
 			res.Check("accepted-keeps-allocations")
 			if !o.allocated(y.spec.ID) {
-				rep("accepted-keeps-allocations", "accepted-keeps-allocations "+w.plan.Policy, "after an accepted configuration update created/running container %s holds no allocation", y.spec.ID)
+				ctx := ""
+				for _, z := range w.rt.active() {
+					if z.reqUnsure {
+						// F6/F7: another container's failed UpdateContainer left its
+						// new, unsatisfiable request in the cache; re-allocation of
+						// everything then runs with that request
+						ctx = " while-a-failed-update-request-is-cached"
+					}
+				}
+				rep("accepted-keeps-allocations", "accepted-keeps-allocations "+w.plan.Policy+ctx, "after an accepted configuration update created/running container %s holds no allocation", y.spec.ID)
 			}
 		}
 		for _, y := range w.rt.live() {
